@@ -70,6 +70,10 @@ def check_accept(case):
     kind = case.get("kind", "raw")
     cls = ["nt:" + kind if kind != "raw" else "raw"]
     cls.append("expect-accept" if want else "expect-reject")
+    if case.get("base"):
+        # history: the valid encoding this candidate was derived from is decoded first in the same process
+        cls.append("nt:after-decoding-valid-base")
+        attempt(bits.point, bx(case["base"]))
     got = attempt(bits.point, b)
     if want is not None:
         f.expect(not raised(got) and tuple(got) == want, f"point/rejects-or-wrong-valid/{kind}", repr(got)[:100])
@@ -258,7 +262,12 @@ def accept_cases(draw):
         b = bytearray(bytes([6 + (pt[1] & 1)]) + pt[0].to_bytes(32, "big") + pt[1].to_bytes(32, "big"))
     elif kind == "prefix":
         b[0] = draw(st.sampled_from([0, 1, 5, 8, 0xFF, 6, 7]) | st.integers(0, 255))
-    return {"kind": kind, "b": bytes(b).hex()}
+    out = {"kind": kind, "b": bytes(b).hex()}
+    if draw(st.booleans()):
+        out["base"] = ec.sec1_encode(pt, comp).hex()
+        if draw(st.booleans()):
+            out["base"] = ec.sec1_encode(pt, not comp).hex()
+    return out
 
 
 def key32():
@@ -309,7 +318,7 @@ def _targets(tier):
     return [
         Target("sec1-roundtrip", check_roundtrip, strategy=lambda tier: st.fixed_dictionaries({"k": gen.scalars_valid()}), budget={"quick": 1200, "thorough": 25000}),
         Target("sec1-accept", check_accept, strategy=lambda tier: accept_cases(), budget={"quick": 4000, "thorough": 80000},
-               required=["nt:len65-prefix02", "nt:len33-prefix04", "nt:hybrid", "nt:x>=p", "nt:nonresidue", "nt:y-negated", "nt:coord-aliased", "expect-accept", "expect-reject"]),
+               required=["nt:len65-prefix02", "nt:len33-prefix04", "nt:hybrid", "nt:x>=p", "nt:nonresidue", "nt:y-negated", "nt:coord-aliased", "nt:after-decoding-valid-base", "expect-accept", "expect-reject"]),
         Target("wif", check_wif, strategy=lambda tier: wif_cases(), budget={"quick": 3000, "thorough": 60000},
                required=["nt:key-31-leading-zero-bytes", "nt:suffix", "nt:wif-unknown-version", "nt:wif-mutated", "nt:bad-key-len", "nt:bad-key-range"]),
         Target("pem", check_pem, strategy=lambda tier: pem_cases(), budget={"quick": 320, "thorough": 6000},
